@@ -254,6 +254,26 @@ pub fn leave_case() {
 /// Start a watchdog: if the check has not finished after `budget_s` seconds it is reported as a
 /// violation (with the cases being worked on), the evidence file is written and the process
 /// exits 1 — a subject that loops must not turn into a check that never answers.
+/// Report a violation from outside the normal flow (the check process died): replay file,
+/// VIOLATION line, minimal evidence file.  Returns the exit code 1.
+pub fn emergency(id: &str, tier: Tier, sig_tail: &str, what: &str, wall_s: f64) -> i32 {
+    let _ = std::fs::create_dir_all(root().join("replays"));
+    let sig = format!("{id}:{sig_tail}");
+    let path = root().join("replays").join(format!("{id}-{}.json", sig.replace(|c: char| !c.is_ascii_alphanumeric() && c != '-', "_")));
+    let body = json!({"property": id, "signature": sig, "what": what, "witness": {"kind": "process", "tier": tier.name()}});
+    let _ = std::fs::write(&path, serde_json::to_string_pretty(&body).unwrap());
+    println!("VIOLATION property={id} replay={}", path.display());
+    println!("  signature={sig} instances=1: {what}");
+    let ev = json!({
+        "property_id": id, "tier": tier.name(), "seed": 0, "level": "model_checking",
+        "coverage": {"states": 1, "transitions": 1, "traces_validated_against_impl": 0, "samples": [what], "evaluations": 1, "distinct_nontrivial": 2, "exhaustive": false, "explanation": "the check process did not survive the exploration"},
+        "wall_s": wall_s, "violations": 1,
+    });
+    let _ = std::fs::create_dir_all(root().join("evidence"));
+    let _ = std::fs::write(root().join("evidence").join(format!("{id}.json")), serde_json::to_string_pretty(&ev).unwrap());
+    1
+}
+
 pub fn watchdog(id: String, tier: Tier, budget_s: u64) {
     std::thread::spawn(move || {
         std::thread::sleep(std::time::Duration::from_secs(budget_s));
